@@ -3,6 +3,7 @@ from __future__ import annotations
 
 import ast
 
+from ..guards import walk_function
 from ..core import AnalysisError, src
 from ..geom import Geometry
 from ..index import RepoIndex
@@ -24,10 +25,38 @@ TRUSTED = c05.TRUSTED
 def run(index: RepoIndex, rep) -> None:
     rep.rule('C07.R5', 'row and column quantities are not exchanged when slicing and building the view (axis typing, E14)', floor=1)
     from ..axes import axis_rule
-    axis_rule(index, rep, 'C07.R5', ('gym_gridverse/grid.py', 'gym_gridverse/envs/observation_functions.py'), floor=8)
+    axis_rule(index, rep, 'C07.R5', ('gym_gridverse/grid.py', 'gym_gridverse/geometry.py', 'gym_gridverse/envs/observation_functions.py'), floor=8)
+    # the view depends on (state, area) alone: nothing between the world and the view is
+    # memoised on grids / grid objects (their equality ignores identity and Box contents),
+    # and the slice shares no storage with the world (C03.R4, C03.R3; both decided before the
+    # slice model, which may refuse a rewritten subgrid)
+    rep.rule('C07.R6', 'the view is recomputed from the state: no memo keyed on grids or grid '
+             'objects, no shared rows between world and view', floor=1)
+    from ..effects import Effects
+    from ..obsmodel import SubgridUnmodelled
+    from .c03 import memo_rules
+    memo_rules(index, rep, 'C07.R6', Effects(index), only_rel='gym_gridverse/grid.py')
+    rep.holds('C07.R6', 'gym_gridverse/grid.py', 'memoised helpers of grid.py checked')
     geo = Geometry(index)
     pipe = Pipeline(index, geo)
-    sub = Subgrid(index)
+    try:
+        sub = Subgrid(index)
+    except SubgridUnmodelled as ex:
+        for e_, t_ in ex.shared:
+            rep.violation('C07.R6', 'gym_gridverse/grid.py', 'Grid.subgrid', e_.line, t_,
+                          f'Grid.subgrid can return its own row lists (`{t_[:100]}`): an earlier '
+                          f'observation of the same state changes what a later one shows')
+        raise
+    sgw = walk_function(sub.func.node)
+    kept = [e for e in sgw.events if e.kind in ('attrstore', 'augstore')
+            and src(e.target).startswith('self.')]
+    rep.check(not sub.aliasing_returns and not kept, 'C07.R6', 'gym_gridverse/grid.py',
+              'Grid.subgrid', sub.func.node.lineno,
+              '; '.join([t for _, t in sub.aliasing_returns] + [src(e.stmt) for e in kept])[:160]
+              or 'Grid.subgrid',
+              'Grid.subgrid keeps or hands out a slice it built earlier: what an observation '
+              'shows would depend on earlier observations of the same state, not on (state, '
+              'area) alone', 'subgrid rebuilt at every call')
     rep.rule('C07.R1', 'frame consistency (C05.R1) for the four headings', floor=9)
     rep.rule('C07.R2', 'the visibility function receives only agent-frame arguments', floor=2)
     rep.rule('C07.R3', 'two-sided padding test on both axes (C05.R2)', floor=3)
